@@ -2,6 +2,12 @@
 
 T-gen : Gen/Constants.v (block sizes 100 of median.py and 50 of bilateral.py by ast,
         PANDORA_MSK_PIXEL_INVALID and bit 11 by import); theorems hold for every B >= 1.
+        Gen/BlockLoops.v (skeletons of the two block loops) and Gen/FilterKernels.v (translator/gen_filter_kernels.py:
+        the vectorised numpy code of bilateral_kernel, gauss_spatial_kernel, normalized_gaussian, filter_bilateral,
+        median_filter, the three filter_disparity, statement by statement over the numpy combinators of Lib/NpNd.v);
+        the C10_gen_* theorems prove generated = model per pixel for all inputs and restate the headline theorems on
+        the generated definitions.  The generated code is also EXTRACTED and run as it is (fids 7-10) against the real
+        outputs: this validates the reading of numpy broadcasting / indexing / nansum in Lib/NpNd.v on every run.
 T-corr: the extracted models of MedianFilter / BilateralFilter / MedianForIntervalsFilter
         (NaN masking, sliding windows, block loop with the radius start offset and trailing
         empty blocks, nanmedian, write-back on finite pixels only, |= bit 11) against the real
@@ -25,7 +31,7 @@ import xarray as xr
 
 from harness import core
 
-GEN = ["gen_constants", "gen_block_loops"]
+GEN = ["gen_constants", "gen_block_loops", "gen_filter_kernels"]
 EXTRACT_FILES = ["X10"]
 DRIVERS = ["x10"]
 RULE = ("synthetic disparity maps, values multiples of 1/4 in [-8, 8]; shapes from {3,7,49,50,51,99,100,101,103,205} x "
@@ -37,6 +43,10 @@ RULE = ("synthetic disparity maps, values multiples of 1/4 in [-8, 8]; shapes fr
         "the map has an interior valid pixel whose window holds an invalid pixel or >= 2 distinct valid values; distinct "
         "by (filter, shape, parameters, case seed)")
 ASSUMES = [
+    "the reading of numpy in Lib/NpNd.v (broadcasting on trailing axes, transpose, basic indexing, nansum / nanmedian over axes (2, 3), "
+    "boolean-mask assignment, as_strided on a C-contiguous array with strides counted in elements, int() truncation, NaN = None, x / 0 = NaN) "
+    "that gives the generated code of Gen/FilterKernels.v its meaning; validated on every run by running the extracted generated code "
+    "against the real filters (generated_code_runs in the statistics)",
     "numpy primitives (as_strided sliding windows, np.array_split, np.nanmedian = middle of the sorted non-NaN values, "
     "np.nansum, boolean-mask assignment) are hand-modelled (Model/Filters.v, Lib/Blocks.v) and validated by this "
     "correspondence on every run",
@@ -52,10 +62,17 @@ ASSUMES = [
     "it reaches win/2 pixels up/left and win/2 - 1 down/right; 'closer to the edge than the radius' is read as 'the "
     "window does not fit in the image' (identical for odd widths)",
 ]
-TRUSTED = ["Gen/Constants.v produced by translator/gen_constants.py (ast pattern np.array_split(x, np.arange(B, n, B), axis); "
+TRUSTED = ["Gen/FilterKernels.v produced by translator/gen_filter_kernels.py (ast, fail closed: one `let` per statement over the numpy "
+           "combinators; types of the names from annotations; stores only into fresh copies; the block loop replaced by a hole "
+           "taking the written expression as a function of the inner chunk; np.sqrt + normalized_gaussian of gauss_spatial_kernel "
+           "fused into the Gaussian datum ngs sigma n) and the reading of numpy in Lib/NpNd.v (broadcasting on trailing axes, "
+           "transpose, a[:, :, k, l], nansum/nanmedian over axes (2, 3), boolean-mask assignment, int() truncation, NaN = None, "
+           "x / 0 = NaN), validated on every run by running the extracted generated code against the real outputs",
+           "Gen/Constants.v produced by translator/gen_constants.py (ast pattern np.array_split(x, np.arange(B, n, B), axis); "
            "pandora.constants by import)",
            "Gen/BlockLoops.v produced by translator/gen_block_loops.py (ast transliteration of the double block loop: split expressions, statements on the running offsets where they stand, slice bounds, arrays resolved to np.zeros / np.full_like / np.copy / sliding_window view / parameter expression; fail closed) and its reading as a program by Lib/BlockSkeleton.v exec (total arrays, slice writes neither clamped nor shape-checked)"]
 
+GEN_MAX_PIXELS = 1500     # the extracted GENERATED code is run on the maps up to this size (quick; thorough: 12000)
 SIDE_A = [3, 7, 49, 50, 51, 99, 100, 101, 103, 205]
 SIDE_B = [3, 5, 52, 101]
 INVALID = 0b01111000011
@@ -295,11 +312,18 @@ def run_median(ctx, model, p):
     ctx.traces += 1
     impl = [] if err else [wire_map(ds["disparity_map"].data), wire_zmap(ds["validity_mask"].data)]
     marg = [(1, [0, w, ny, nx, wire_map(disp), wire_zmap(mask)])]
+    gen_run = ny * nx <= GEN_MAX_PIXELS
+    if gen_run:
+        # the GENERATED code (Gen/FilterKernels.v + Gen/BlockLoops.v over Lib/NpNd.v), extracted and run as it is
+        marg.append((7, [w, ny, nx, wire_map(disp), wire_zmap(mask)]))
     if not err:
         # the boolean Spec extracted from Coq (Model/FiltersCheck.v, = Spec by median_step_spec_b_iff) on the REAL output
         marg.append((5, [w // 2, ny, nx, wire_map(disp), wire_zmap(mask), impl[0], impl[1]]))
 
-    def after(mres, spec_ok=None):
+    def after(mres, *rest):
+        rest = list(rest)
+        gres = rest.pop(0) if gen_run else None
+        spec_ok = rest.pop(0) if rest else None
         val = valid_values(disp, mask)
         ctx.case(nontrivial_key(val, w, w // 2, ("median", ny, nx, w, p["inv"], p["seed"])))
         ctx.count("median_cases")
@@ -309,6 +333,11 @@ def run_median(ctx, model, p):
         if impl != mres:
             ctx.mismatch("median", {"filter": "median", "params": p, "impl_error": err},
                          first_diff(impl, mres), None)
+        if gen_run:
+            ctx.count("generated_code_runs")
+            if (gres != [0] + impl) if not err else False:
+                ctx.mismatch("generated_median", {"filter": "median", "params": p, "impl_error": err},
+                             "numpy error flag raised by the generated code" if gres and gres[0] != 0 else first_diff(impl, gres[1:]), None)
         if err:
             # no size is outside the property: an image smaller than the window has no pixel farther from the edge
             # than the radius, every pixel must come out untouched
@@ -410,16 +439,23 @@ def run_bilateral(ctx, model, p):
         ctx.broken_obligation("bilateral_kernel_ok", f"the Gaussian kernels of sigma_space {ss}, sigma_color {sc} do not satisfy "
                               f"the hypothesis kernel_ok of the bilateral theorems (negative, non-finite or zero self weight)")
     ctx.count("bilateral_kernel_strictly_positive" if np.all(skf > 0) and np.all(rkf > 0) else "bilateral_kernel_with_zero_weights")
-    marg = (2, [0, ny, nx, wq(ss), wire_map(np.asarray(sk, dtype=np.float64)), rk_tbl, wire_map(disp), wire_zmap(mask)])
+    marg = [(2, [0, ny, nx, wq(ss), wire_map(np.asarray(sk, dtype=np.float64)), rk_tbl, wire_map(disp), wire_zmap(mask)])]
+    # the GENERATED code run as it is; its Gaussian DATA: gs[n] = normalized_gaussian(sqrt(n), sigma_space) (which entry
+    # weighs which pixel is generated code: g_gauss_spatial_kernel_sqdist), rk as above
+    n_gs = 2 * (win // 2 + 1) ** 2 + 1
+    gs = np.asarray(f.normalized_gaussian(np.sqrt(np.arange(n_gs, dtype=np.float64)), ss), dtype=np.float64)
+    gs_w = [wq(x) for x in gs.tolist()]
+    # hypothesis kernel_ok of C10_gen_bilateral_eq_weighted_mean on the Gaussian data of THIS run
+    if not (np.all(np.isfinite(gs)) and np.all(gs >= 0) and gs[0] > 0):
+        ctx.broken_obligation("bilateral_kernel_ok", f"the spatial Gaussian data of sigma_space {ss} do not satisfy kernel_ok "
+                              f"(negative, non-finite or zero weight at distance 0)")
+    marg.append((9, [win, gs_w]))
+    gen_run = ny * nx <= GEN_MAX_PIXELS
+    if gen_run:
+        marg.append((8, [ny, nx, wq(ss), gs_w, rk_tbl, wire_map(disp), wire_zmap(mask)]))
 
-    def after(mres):
-        val = valid_values(disp, mask)
-        ctx.case(nontrivial_key(val, win, win // 2, ("bilateral", ny, nx, ss, sc, p["inv"], p["seed"])))
-        ctx.count("bilateral_cases")
-        ctx.count("bilateral_win%d" % win)
-        out = ds["disparity_map"].data
-        mm = frac_map(mres[0])
-        bad = None
+    def cmp_disp(rows, out):
+        mm = frac_map(rows)
         for r in range(ny):
             row_m, row_o, row_b = mm[r], out[r].tolist(), disp[r].tolist()
             for c in range(nx):
@@ -433,10 +469,28 @@ def run_bilateral(ctx, model, p):
                 else:
                     ok = core.close(o, m)
                 if not ok:
-                    bad = {"pixel": [r, c], "impl": repr(o), "model": str(m)}
-                    break
-            if bad:
-                break
+                    return {"pixel": [r, c], "impl": repr(o), "model": str(m)}
+        return None
+
+    def after(mres, tres, gres=None):
+        # generated gauss_spatial_kernel table against the filter's own table
+        ctx.count("generated_spatial_tables")
+        tbl = frac_map(tres[1]) if tres and tres[0] == 0 else None
+        skl = np.asarray(sk, dtype=np.float64).tolist()
+        if tbl is None or any(not core.close(skl[a][b], tbl[a][b]) for a in range(win) for b in range(win)):
+            ctx.mismatch("generated_gauss_spatial_kernel", {"filter": "bilateral", "params": p}, "differs", None)
+        if gen_run:
+            ctx.count("generated_code_runs")
+            gbad = "numpy error flag raised by the generated code" if gres[0] != 0 else cmp_disp(gres[1], ds["disparity_map"].data)
+            if gbad or wire_zmap(ds["validity_mask"].data) != gres[2]:
+                ctx.mismatch("generated_bilateral", {"filter": "bilateral", "params": p}, gbad or "mask", None)
+        val = valid_values(disp, mask)
+        ctx.case(nontrivial_key(val, win, win // 2, ("bilateral", ny, nx, ss, sc, p["inv"], p["seed"])))
+        ctx.count("bilateral_cases")
+        ctx.count("bilateral_win%d" % win)
+        out = ds["disparity_map"].data
+        mm = frac_map(mres[0])
+        bad = cmp_disp(mres[0], out)
         if bad or wire_zmap(ds["validity_mask"].data) != mres[1]:
             ctx.mismatch("bilateral", {"filter": "bilateral", "params": p}, bad or "mask", None)
         rp = {"filter": "bilateral", "params": p}
@@ -521,6 +575,9 @@ def run_mfi(ctx, model, p):
     if spy_in is not None:
         margs.append((4, [0, w, ny, nx, wire_map(binf)]))
         margs.append((4, [0, w, ny, nx, wire_map(bsup)]))
+    gen_run = ny * nx <= GEN_MAX_PIXELS
+    if gen_run:
+        margs.append((10, margs[0][1]))
     n_corr = len(margs)
     if not err:
         # extracted Spec checker on the bands the real code produced (before regularisation when it is on)
@@ -537,6 +594,12 @@ def run_mfi(ctx, model, p):
             ctx.count("mfi_raised_" + err)
         if impl != mres[0]:
             ctx.mismatch("median_for_intervals", {"filter": "mfi", "params": p, "impl_error": err}, first_diff(impl, mres[0]), None)
+        if gen_run and not err:
+            ctx.count("generated_code_runs")
+            gres = mres[n_corr - 1]
+            if gres != [0] + impl:
+                ctx.mismatch("generated_median_for_intervals", {"filter": "mfi", "params": p},
+                             "numpy error flag raised by the generated code" if gres and gres[0] != 0 else first_diff(impl, gres[1:]), None)
         if err:
             ctx.violation("mfi_raises", f"median_for_intervals filter_size {w} on a {ny}x{nx} map raised {err}", {"filter": "mfi", "params": p})
             return
@@ -612,7 +675,9 @@ def gen_cases(rng, quick):
 
 
 def run(ctx):
+    global GEN_MAX_PIXELS  # pylint: disable=global-statement
     quick = ctx.tier == "quick"
+    GEN_MAX_PIXELS = 1500 if quick else 12000
     model = core.Model("x10")
     if getattr(ctx, "replay_case", None) is not None:
         rc = ctx.replay_case
@@ -649,4 +714,18 @@ def run(ctx):
                            "sk_B = Gen.Constants.median_block (C10_median_block_loop_skeleton, vm_compute)",
                            "skeleton_wf Gen.BlockLoops.filter_bilateral = true /\\ filter_skeleton_ok KBilateral /\\ sk_B = "
                            "Gen.Constants.bilateral_block (C10_bilateral_block_loop_skeleton, vm_compute; skeletons read by "
-                           "translator/gen_block_loops.py with ast, fail closed)"]
+                           "translator/gen_block_loops.py with ast, fail closed)",
+                           "Gen.FilterKernels.g_sliding_window (pandora/common.py: shape tuple, doubled strides, as_strided) is the array of all "
+                           "windows, element (i, j, a, b) = element (i + a, j + b), every offset inside the memory (C10_gen_sliding_window)",
+                           "Gen.FilterKernels.g_normalized_gaussian = the canonical Gaussian formula tree (C10_gen_normalized_gaussian_is_the_gaussian, "
+                           "reflexivity)",
+                           "Gen.FilterKernels.g_gauss_spatial_kernel is the kernel_size x kernel_size table of ngs sigma ((i - k/2)^2 + (j - k/2)^2) "
+                           "(C10_gen_spatial_weight_is_radial; re-proved on the regenerated text)",
+                           "Gen.FilterKernels.g_bilateral_kernel yields, for every batch of windows, nansum(window * weights) / nansum(weights) of "
+                           "each window alone, weights = table * gaussian(window - window[off, off]) (C10_gen_bilateral_kernel_per_window, "
+                           "C10_gen_kernels_chunk_independent; proof replayed on the regenerated text, breaks when a statement changes)",
+                           "Gen.FilterKernels.g_median_filter / g_filter_bilateral with the generated block loops = Model.Filters per pixel "
+                           "(C10_gen_median_filter_eq_model, C10_gen_filter_bilateral_eq_model)",
+                           "Gen.FilterKernels.g_median_filter_disparity / g_bilateral_filter_disparity / g_mfi_filter_disparity: masking, "
+                           "write-back on finite pixels, |= bit 11 (C10_gen_median_eq_spec, C10_gen_bilateral_eq_weighted_mean, "
+                           "C10_gen_mfi_same_median_only_bit11; C10_gen_example runs the generated code by vm_compute)"]
